@@ -345,6 +345,36 @@ pub fn run_c17(cx: &Cx) -> PropResult {
                 Ok(Err(a)) if a == "LengthTooLarge" => {}
                 other => acc.violation(format!("a string of 2^31 bytes: {other:?}"), json!({"special": "string 2^31"})),
             }
+            // a chunk of 2^31 bytes: of a record, and of an enum that has evolution steps of its own (whose chunk 0 is
+            // filled by write_constructor); bytes are counted, not kept, but the chunk buffer is real: about 5 GiB
+            for enum_level in [false, true] {
+                let r = guarded(|| {
+                    use desert::adt::{AdtMetadata, AdtSerializer};
+                    use desert::Evolution;
+                    let payload = vec![7u16; 1usize << 30];
+                    let top = AdtMetadata::new(vec![Evolution::InitialVersion, Evolution::FieldRemoved { name: "legacy".into() }]);
+                    let v0 = AdtMetadata::new(vec![Evolution::InitialVersion]);
+                    let mut ctx = SerializationContext::new(SizeCalculator::new());
+                    let res = if enum_level {
+                        let mut ser = AdtSerializer::new(&top, &mut ctx);
+                        ser.write_constructor(0, |c| {
+                            let mut inner = AdtSerializer::new_v0(&v0, c);
+                            inner.write_field("p", &payload)?;
+                            inner.finish()
+                        })
+                        .and_then(|_| ser.finish())
+                    } else {
+                        let mut ser = AdtSerializer::new(&top, &mut ctx);
+                        ser.write_field("p", &payload).and_then(|_| ser.finish())
+                    };
+                    res.map(|_| ctx.into_output().size()).map_err(|e| vcat::errinfo(&e).kind)
+                });
+                acc.case(if enum_level { "chunk of 2^31 bytes in an enum with evolution steps of its own" } else { "chunk of 2^31 bytes in a record" }, 3 + enum_level as u64, true);
+                match r {
+                    Ok(Err(a)) if a == "LengthTooLarge" => {}
+                    other => acc.violation(format!("a chunk of 2^31 bytes ({}): {other:?} — expected Err(LengthTooLarge)", if enum_level { "enum with evolution steps of its own" } else { "record" }), json!({"special": "chunk 2^31"})),
+                }
+            }
         }
     });
     let mut r = PropResult::new(
